@@ -263,15 +263,18 @@ def enumFromTextReader (byName : Table) (s : List Nat) : Option Nat :=
     | some n => some n
     | none => lookup (pack s) byName
 
+/-- the number branch of enums.go `unmarshalText`: `0x`/`0X` hexadecimal, else decimal. -/
+def enumUnmarshalNum (s : List Nat) : Option Nat :=
+  match s with
+  | 48 :: 120 :: rest => parseUint 16 32 rest
+  | 48 :: 88 :: rest => parseUint 16 32 rest
+  | _ => parseUint 10 32 s
+
 /-- enums.go `unmarshalText`: blanks removed; `0x`/`0X` hexadecimal or decimal if it parses; otherwise
     (including a malformed number) a registered name. -/
 def enumFromTextUnmarshal (byName : Table) (s : List Nat) : Option Nat :=
   let s := s.filter (· != 32)
-  let num := match s with
-    | 48 :: 120 :: rest => parseUint 16 32 rest
-    | 48 :: 88 :: rest => parseUint 16 32 rest
-    | _ => parseUint 10 32 s
-  match num with
+  match enumUnmarshalNum s with
   | some n => some n
   | none => lookup (pack s) byName
 
